@@ -271,6 +271,10 @@ def handle (req : Json) : R Json := do
           else none
         | none => none
       out := out ++ [(q, jArr res)]
+    | "heap" =>
+      -- the input heap after an API whose effect is readOnly / allocOnly (`applyEffect`),
+      -- restricted to the input's objects
+      out := out ++ [(q, heapJson h)]
     | "deepcopy" =>
       out := out ++ [(q, heapJson (Heap.deepcopy h))]
     | "shallow_copy" =>
